@@ -21,14 +21,14 @@ abbrev Shape := List Nat
 /-- errors of the shape layer (Python exception class names) -/
 inductive SErr
   | IndexError | ValueError | TypeError | RuntimeError | AxisError
-  | IterableUnitCoercionError | AttributeError
+  | IterableUnitCoercionError | AttributeError | InvalidUnitOperation
 deriving DecidableEq, Repr, Inhabited
 
 def SErr.str : SErr → String
   | .IndexError => "IndexError" | .ValueError => "ValueError" | .TypeError => "TypeError"
   | .RuntimeError => "RuntimeError" | .AxisError => "AxisError"
   | .IterableUnitCoercionError => "IterableUnitCoercionError"
-  | .AttributeError => "AttributeError"
+  | .AttributeError => "AttributeError" | .InvalidUnitOperation => "InvalidUnitOperation"
 
 namespace Shape
 
@@ -102,6 +102,8 @@ def squeeze (s : Shape) : Shape := s.filter (· ≠ 1)
 
 /-- `ndarray.squeeze(axis=k)`: the dimension must be 1 -/
 def squeezeAxis (s : Shape) (ax : Int) : Except SErr Shape :=
+  -- NumPy lets `axis=0` / `axis=-1` through for a 0-d array
+  if s = [] ∧ (ax = 0 ∨ ax = -1) then .ok [] else
   match normAxis s.length ax with
   | none => .error .AxisError
   | some i => if s.getD i 0 = 1 then .ok (s.eraseIdx i) else .error .ValueError
@@ -206,6 +208,8 @@ structure IxAcc where
   post : List Nat := []
   adv : Option Shape := none
   state : Nat := 0
+  /-- some integer array held an out-of-range entry (raises only if the broadcast is non-empty) -/
+  oob : Bool := false
 deriving Repr, DecidableEq
 
 def IxAcc.pushBasic (a : IxAcc) (dims : List Nat) : IxAcc :=
@@ -233,7 +237,12 @@ def walk (hasAdv : Bool) (ell : Nat) : List Ix → Shape → IxAcc → Except SE
   | .newaxis :: ixs, rest, acc => walk hasAdv ell ixs rest (acc.pushBasic [1])
   | .ellipsis :: ixs, rest, acc => walk hasAdv ell ixs (rest.drop ell) (acc.pushBasic (rest.take ell))
   | .mask ms nt :: ixs, rest, acc =>
-    if ms.length ≤ rest.length ∧ rest.take ms.length = ms then
+    -- an empty 1-d boolean array is treated as an empty integer array (mapping.c legacy rule)
+    if ms = [0] ∧ rest ≠ [] then
+      match acc.pushAdv [0] with
+      | .error e => .error e
+      | .ok acc' => walk hasAdv ell ixs (rest.drop 1) acc'
+    else if ms.length ≤ rest.length ∧ rest.take ms.length = ms then
       match acc.pushAdv [nt] with
       | .error e => .error e
       | .ok acc' => walk hasAdv ell ixs (rest.drop ms.length) acc'
@@ -253,11 +262,14 @@ def walk (hasAdv : Bool) (ell : Nat) : List Ix → Shape → IxAcc → Except SE
     else walk hasAdv ell ixs rest (acc.pushBasic [sliceLen d a b st])
   | .fancy .. :: _, [], _ => .error .IndexError
   | .fancy sh lo hi :: ixs, d :: rest, acc =>
-    if size sh = 0 ∨ (intInRange d lo ∧ intInRange d hi) then
-      match acc.pushAdv sh with
-      | .error e => .error e
-      | .ok acc' => walk hasAdv ell ixs rest acc'
-    else .error .IndexError
+    -- bounds are checked while iterating, so not at all when the broadcast index is empty
+    let bad : Bool := !(decide (size sh = 0) || (intInRange d lo && intInRange d hi))
+    -- … except for 0-d integer arrays, which are converted to plain integers first
+    if bad ∧ sh = [] then .error .IndexError
+    else
+    match acc.pushAdv sh with
+    | .error e => .error e
+    | .ok acc' => walk hasAdv ell ixs rest { acc' with oob := acc'.oob || bad }
 
 def consumedTotal (ixs : List Ix) : Nat := (ixs.map Ix.consumed).sum
 
@@ -271,7 +283,8 @@ def index (s : Shape) (ixs : List Ix) : Except SErr Shape :=
     let ell := if nell = 1 then s.length - c else 0
     match walk (ixs.any Ix.isAdvanced) ell ixs s {} with
     | .error e => .error e
-    | .ok acc => .ok acc.result
+    | .ok acc =>
+      if acc.oob ∧ size (acc.adv.getD []) ≠ 0 then .error .IndexError else .ok acc.result
 
 /-- the index consists of basic items only (result is a view of the parent) -/
 def isBasic (ixs : List Ix) : Bool := !(ixs.any Ix.isAdvanced)
